@@ -75,6 +75,9 @@ pub struct Case {
     pub start_epoch: u8,
     /// varies stakes and protocol parameters per epoch
     pub salt: u8,
+    /// STORE_RETENTION_LIMIT of the signer (None = unlimited, 5 = value recommended by the operator manual)
+    #[serde(default)]
+    pub retention: Option<u8>,
     /// ops executed inside each epoch; the chain moves to the next epoch between two entries
     pub epochs: Vec<Vec<Op>>,
 }
@@ -108,9 +111,14 @@ fn case_strategy() -> impl Strategy<Value = Case> {
                     if calm { ops.into_iter().map(|o| if o.is_fault() { Op::Tick } else { o }).collect() } else { ops }
                 },
             );
-            (1u8..=5, any::<u8>(), prop::collection::vec(epoch, n_epochs))
+            (
+                1u8..=5,
+                any::<u8>(),
+                prop_oneof![Just(None), Just(Some(5u8))],
+                prop::collection::vec(epoch, n_epochs),
+            )
         })
-        .prop_map(|(start_epoch, salt, epochs)| Case { start_epoch, salt, epochs })
+        .prop_map(|(start_epoch, salt, retention, epochs)| Case { start_epoch, salt, retention, epochs })
 }
 
 // ------------------------------------------------------------------------------------------------ fixtures
@@ -368,7 +376,14 @@ fn execute(case: &Case) -> Result<(AggState, RunInfo), String> {
     let fx = fixture();
     let result = rt.block_on(async {
         let start_epoch = case.start_epoch as u64;
-        let env = Env::new(scratch.path(), &fx.signers[0], start_epoch, case.salt, &fx.sut_kes_dir)
+        let env = Env::new(
+            scratch.path(),
+            &fx.signers[0],
+            start_epoch,
+            case.salt,
+            &fx.sut_kes_dir,
+            case.retention.map(|r| r as usize),
+        )
             .await
             .map_err(|e| format!("env: {e:?}"))?;
         let mut w = World { env, signer: None, info: RunInfo::default(), salt: case.salt, step: 0, crashed_in_step: false };
@@ -873,6 +888,7 @@ fn case_fn(case: &Case) -> Report {
         rep.label("epilogue-extra-epochs:0");
     }
     rep.label(format!("epochs:{n_epochs}"));
+    rep.label(format!("retention:{:?}", case.retention));
 
     if n_epochs >= 3 && (faults > 0 || restarts > 0) {
         let shape: Vec<String> =
@@ -917,7 +933,8 @@ fn canonical_cases() -> Vec<Case> {
                     ops
                 })
                 .collect();
-            v.push(Case { start_epoch: start, salt, epochs: happy });
+            let retention = if salt % 2 == 1 { Some(5) } else { None };
+            v.push(Case { start_epoch: start, salt, retention, epochs: happy });
             // only a subset of the others registers, changing every epoch; restarts in every epoch
             let subset: Vec<Vec<Op>> = (0..5u8)
                 .map(|i| {
@@ -931,7 +948,7 @@ fn canonical_cases() -> Vec<Case> {
                     ops
                 })
                 .collect();
-            v.push(Case { start_epoch: start, salt, epochs: subset });
+            v.push(Case { start_epoch: start, salt, retention, epochs: subset });
             // aggregator trouble right after each epoch change
             let trouble: Vec<Vec<Op>> = (0..5u8)
                 .map(|i| {
@@ -947,7 +964,7 @@ fn canonical_cases() -> Vec<Case> {
                     ops
                 })
                 .collect();
-            v.push(Case { start_epoch: start, salt, epochs: trouble });
+            v.push(Case { start_epoch: start, salt, retention, epochs: trouble });
         }
     }
     v
